@@ -62,6 +62,9 @@ def run(tier):
           "INVARIANT OrderIndependent\nINVARIANT InRange\nINVARIANT HistTotal\nINVARIANT ChiForms\n" % (maxlen, smax)
     r = vlib.tlc_ok(vlib.run_tlc("GenDecision", cfg, timeout=3000 if thorough else 600), "GenDecision")
     run.add_tlc(r, "GenDecision MaxLen=%d SMax=%d" % (maxlen, smax))
+    # for ALL s (TLC covers s <= SMax): the integer predicate is monotone in t, holds at t = s and fails at t = -1, so the
+    # least t with Pred(s,t) exists in 0..s and is the only threshold -- proved with TLAPS (DecisionProofs.tla)
+    vlib.tlaps_check(run, "DecisionProofs")
     seen = set()
     vectors = []
     for v in r.json:
